@@ -163,6 +163,29 @@ def _graph(ce, prog, n, edges):
     return g
 
 
+@raises_are_findings("K13")
+def K13_matrix_form(rep, flow: Flow):
+    rep.rule("K13", "matrix form: Stabilizer((R, S)) and Stabilizer((R, S, phases)) store exactly the given X part, Z part and signs (signs default to 0), and the size is the matrices' size - evaluated on asymmetric matrices of 2 and 3 qubits", floor=4, exhaustive=True)
+    prog = flow.prog
+    ce = CE(prog, max_steps=5_000_000)
+    samples = [([[1, 0], [1, 1]], [[0, 1], [0, 0]], [1, 0]),
+               ([[1, 0, 1], [0, 0, 1], [1, 1, 0]], [[0, 1, 1], [1, 0, 0], [0, 0, 1]], [0, 1, 1])]
+    for (r, s_, ph) in samples:
+        n = len(r)
+        for with_ph in (False, True):
+            data = (Mat([list(x) for x in r], 2), Mat([list(x) for x in s_], 2)) + ((Mat(list(ph), 1),) if with_ph else ())
+            st = _new_stabilizer(ce, prog, data)
+            got = {k: (v.d if isinstance(v, Mat) else v) for k, v in st.attrs.items()}
+            want = {"R": r, "S": s_, "phases": list(ph) if with_ph else [0] * n, "num_qubits": n}
+            bad = [k for k in want if got.get(k) != want[k]]
+            key = f"matrix:{n}:{'signed' if with_ph else 'unsigned'}"
+            if bad:
+                rep.finding("K13", key, f"stabilizer.py Stabilizer.__init__ (matrix branch): given R = {r}, S = {s_}" + (f", phases = {ph}" if with_ph else "") +
+                            f" the object holds {', '.join(f'{k} = {got.get(k)}' for k in bad)}; expected {', '.join(f'{k} = {want[k]}' for k in bad)}")
+            else:
+                rep.ok("K13", 1, nontrivial=key, sample=f"n={n} {'with' if with_ph else 'without'} signs: stored as given")
+
+
 @raises_are_findings("K5")
 def K5_graph_form(rep, flow: Flow):
     rep.rule("K5", "graph form: Stabilizer(graph) stores R = identity, S = adjacency matrix, phases = 0 (generators X_v Z_N(v)), for every graph on 2..4 vertices", floor=70, exhaustive=True)
